@@ -360,6 +360,28 @@ fn lowbit_exp(x: f64) -> Option<i32> {
 /// all partial products / partial sums are multiples of a common granularity g and bounded by M
 /// with M/g <= 2^53.
 pub fn eval_is_provably_exact(terms: &[(Vec<u64>, f64)], state: &v1::State) -> bool {
+    // special case: every variable value is 0 or +-1 and at most one term is non-zero: each product is
+    // +-coefficient or 0 and the sum adds zeros only, whatever the coefficient looks like (e.g. 1e-6 * x at x = 1)
+    {
+        let mut nonzero = 0;
+        let mut unit = true;
+        for (ids, c) in terms {
+            let mut z = *c == 0.0;
+            for id in ids {
+                match state.entries.get(id) {
+                    Some(v) if *v == 0.0 => z = true,
+                    Some(v) if *v == 1.0 || *v == -1.0 => {}
+                    _ => unit = false,
+                }
+            }
+            if !z {
+                nonzero += 1;
+            }
+        }
+        if unit && nonzero <= 1 {
+            return true;
+        }
+    }
     let mut gmin: i32 = 0; // exponent of granularity (<= 0)
     let mut mag = 0.0f64;
     for (ids, c) in terms {
